@@ -9,7 +9,7 @@ use std::io::Write;
 extern "C" { fn dup(fd: i32) -> i32; fn dup2(a: i32, b: i32) -> i32; fn close(fd: i32) -> i32; }
 
 /// everything the engine writes to standard output between start() and end()
-pub struct Capture { saved: i32, path: std::path::PathBuf }
+pub struct Capture { saved: i32, path: std::path::PathBuf, done: bool }
 impl Capture {
     pub fn start(tag: &str) -> Capture {
         use std::os::unix::io::AsRawFd;
@@ -18,15 +18,24 @@ impl Capture {
         let f = std::fs::File::create(&path).expect("temp file");
         let saved = unsafe { dup(1) };
         unsafe { dup2(f.as_raw_fd(), 1); }
-        Capture { saved, path }
+        Capture { saved, path, done: false }
     }
-    pub fn end(self) -> String {
+    fn restore(&mut self) {
+        if self.done { return; }
         let _ = std::io::stdout().flush();
         unsafe { dup2(self.saved, 1); close(self.saved); }
+        self.done = true;
+    }
+    pub fn end(mut self) -> String {
+        self.restore();
         let s = std::fs::read_to_string(&self.path).unwrap_or_default();
         let _ = std::fs::remove_file(&self.path);
         s
     }
+}
+// a panic of the engine inside a captured stretch must not leave standard output redirected
+impl Drop for Capture {
+    fn drop(&mut self) { if !self.done { self.restore(); let _ = std::fs::remove_file(&self.path); } }
 }
 
 const KBS: &[&[&str]] = &[
@@ -54,10 +63,19 @@ const KBS: &[&[&str]] = &[
       "u2($X) :- time(p($X)), e($Y), $Y > 2.",
       "u3 :- time(w) ; time(w2).",
       "n2 :- not(k3), e($X).", "n3($X) :- e($X), not(k3).",
-      "pl :- print_list([a, b]), nl, fail ; w."],
+      "pl :- print_list([a, b]), nl, fail ; w.",
+      // failure-driven loops over alternatives, and goals called with partly instantiated structures ("templates")
+      "n4(1).", "n4(2).", "m4(3).", "m4(4).",
+      "show :- (n4($X) ; m4($X)), print($X), fail.",
+      "all4($X) :- n4($X).", "all4($X) :- (n4($Y) ; m4($Y)), print($Y), fail.",
+      "entry([1, apple]).", "entry([2, banana]).", "entry([3, cherry]).",
+      "lookup($K, $V) :- $L = [$K, $V], entry($L), $K > 1.",
+      "paint(flag(red, green)).", "paint(flag(green, green)).", "paint(flag(blue, green)).",
+      "design($A, $B) :- $F = flag($A, $B), paint($F), $A == $B.",
+      "tmpl($K) :- $L = [$K, $V], entry($L), $V == cherry."],
 ];
 const QUERIES: &[&str] = &["q", "q2", "q3($X)", "r($X)", "s($X)", "t($X)", "u($X)", "v($X)", "w", "w2", "x($X)", "y($X, $Y)", "z", "z2", "z3",
-    "c1($X)", "c2($X)", "n1($X)", "o1", "l1($N)", "deep($X)", "o2", "a2", "k2", "u2($X)", "u3", "n2", "n3($X)", "pl", "p($X)", "p(a)", "p(c)", "nothing($X)", "e(2)"];
+    "c1($X)", "c2($X)", "n1($X)", "o1", "l1($N)", "deep($X)", "o2", "a2", "k2", "u2($X)", "u3", "n2", "n3($X)", "pl", "show", "all4($X)", "lookup($K, $V)", "design($A, $B)", "tmpl($K)", "p($X)", "p(a)", "p(c)", "nothing($X)", "e(2)"];
 
 fn load(k: usize, extra: &[String]) -> Result<KnowledgeBase, String> {
     let mut kb = KnowledgeBase::new();
@@ -180,6 +198,7 @@ pub fn check_not(case: &str) -> Result<(), String> {
 }
 
 // ---- C02 ----------------------------------------------------------------------------------------------------------
+// (an alternative that is a conjunction is written in parentheses of its own: see the note in rand_literal)
 const CUT_KB: &[&str] = &[
     "t(1).", "t(2).", "t(3).",
     "a($X) :- t($X), !, $X == 2.", "a(9).",
@@ -188,7 +207,7 @@ const CUT_KB: &[&str] = &[
     "d($X, $Y) :- t($X), b($Y).",
     "e($X) :- b($X), t($Y), $Y > 2.",
     "g(2).", "g(3).", "f($X) :- t($X), g($X), !.",
-    "h($X) :- t($X), ! ; $X = 7.",
+    "h($X) :- (t($X), !) ; $X = 7.",
     "j($X) :- $X > 1, !.", "j(1).", "i($X) :- t($X), j($X).",
     "k($X) :- t($X), !, fail.", "k(5).",
     "n($A, $B) :- $B = 20, !.", "n($A, 30).", "m($X) :- t($X), n($X, $Y), $Y > 10.",
@@ -197,10 +216,10 @@ const CUT_KB: &[&str] = &[
     "r($X) :- t($X), !, t($Y), $Y > $X.",
     "s($X, $Y) :- t($X), t($Y), !.",
     "cnt(0) :- !.", "cnt($N) :- $N > 0, $M = $N - 1, cnt($M).",
-    "u($X) :- t($X), $X > 1 ; t($X), !, $X > 5.", "u(8).",
+    "u($X) :- (t($X), $X > 1) ; (t($X), !, $X > 5).", "u(8).",
     "v($X) :- t($X), w($X, $Y), $Y == 2.", "w($A, $B) :- t($B), $B >= $A, !.",
     "x($X) :- d($X, $Y), !, $X > 5.", "x(4).",
-    "y($X) :- b($X), c($Y), !, $Y > 5 ; $X = 6.", "y(0).",
+    "y($X) :- (b($X), c($Y), !, $Y > 5) ; $X = 6.", "y(0).",
     "z($X) :- t($X), not(a($X)), $X > 1.",
     "first([$H | $T], $H) :- !.", "first($L, none).",
     "mem($X, [$X | $T]).", "mem($X, [$H | $T]) :- mem($X, $T).", "once_mem($X, $L) :- mem($X, $L), !.",
@@ -225,4 +244,157 @@ pub fn check_cut(case: &str) -> Result<(), String> {
     })();
     let _ = cap.end();
     r
+}
+
+// ---- random programs: the engine against the reference interpreter, and asked again after exhaustion -------------------
+// Stratified (a rule of level k calls predicates of lower levels only), so every query terminates.
+use crate::terms::Rng;
+
+const CONSTS: &[&str] = &["a", "b", "c", "1", "2", "3"];
+
+fn rand_arg(r: &mut Rng, vars: &[&str]) -> String {
+    match r.below(10) {
+        0 | 1 | 2 | 3 | 4 => vars[r.below(vars.len())].to_string(),
+        5 | 6 | 7 => CONSTS[r.below(CONSTS.len())].to_string(),
+        8 => format!("[{}, {}]", vars[r.below(vars.len())], vars[r.below(vars.len())]),
+        _ => format!("s({})", vars[r.below(vars.len())]),
+    }
+}
+fn rand_call(r: &mut Rng, level: usize, vars: &[&str]) -> String {
+    // predicates below `level`: facts f0/1 g0/2 h0/1, rules r{k}a/1 r{k}b/2 for 1 <= k < level
+    let k = r.below(level);
+    if k == 0 {
+        match r.below(3) {
+            0 => format!("f0({})", rand_arg(r, vars)),
+            1 => format!("g0({}, {})", rand_arg(r, vars), rand_arg(r, vars)),
+            _ => format!("h0({})", rand_arg(r, vars)),
+        }
+    } else if r.below(2) == 0 { format!("r{}a({})", k, rand_arg(r, vars)) }
+    else { format!("r{}b({}, {})", k, rand_arg(r, vars), rand_arg(r, vars)) }
+}
+fn rand_literal(r: &mut Rng, level: usize, vars: &[&str], cuts: bool, depth: usize) -> String {
+    match r.below(20) {
+        0..=8 => rand_call(r, level, vars),
+        9 | 10 => format!("{} = {}", vars[r.below(vars.len())], rand_arg(r, vars)),
+        11 => format!("{} == {}", vars[r.below(vars.len())], CONSTS[r.below(CONSTS.len())]),
+        12 | 13 => format!("not({})", rand_call(r, level, vars)),
+        14 => if cuts { "!".to_string() } else { rand_call(r, level, vars) },
+        15 => "fail".to_string(),
+        16 | 17 => format!("print(<%s>, {})", vars[r.below(vars.len())]),
+        18 => "nl".to_string(),
+        _ => if depth == 0 {
+                 // an alternative that is a conjunction is written in parentheses of its own: `a, b ; c` loses operands in
+                 // token_tree_to_goal (DESIGN.md 8.8, an observation under C19), `(a, b) ; c` does not
+                 let alt = |r: &mut Rng| {
+                     if r.below(2) == 0 { rand_literal(r, level, vars, cuts, 1) }
+                     else { format!("({}, {})", rand_literal(r, level, vars, cuts, 1), rand_literal(r, level, vars, cuts, 1)) }
+                 };
+                 let (x, y) = (alt(r), alt(r));
+                 format!("({} ; {})", x, y)
+             } else { rand_call(r, level, vars) },
+    }
+}
+fn rand_conj(r: &mut Rng, level: usize, vars: &[&str], cuts: bool, depth: usize, max: usize) -> String {
+    let n = 1 + r.below(max);
+    let mut parts = vec![];
+    for _ in 0..n { parts.push(rand_literal(r, level, vars, cuts, depth)); }
+    // failure-driven loops (`.., print(..), fail`) and bodies that start from a template (`$W = [$X, $Z], p($W), ..`) are
+    // the shapes in which a stale node is most easily seen: make them common
+    if depth == 0 && r.below(6) == 0 { parts.push(format!("print(<%s>, {})", vars[r.below(vars.len())])); parts.push("fail".to_string()); }
+    if depth == 0 && r.below(6) == 0 { parts.insert(0, format!("$W = {}", ["[$X, $Z]", "s($Z)", "[$Z, $Y]"][r.below(3)])); }
+    parts.join(", ")
+}
+pub fn rand_program(r: &mut Rng, cuts: bool) -> (Vec<String>, String) {
+    let mut rules: Vec<String> = vec![];
+    for c in ["a", "b", "1", "2"] { if r.below(4) > 0 { rules.push(format!("f0({}).", c)); } }
+    rules.push("f0(c).".into());
+    for (x, y) in [("a", "1"), ("b", "2"), ("a", "2"), ("c", "3"), ("1", "a")] { if r.below(3) > 0 { rules.push(format!("g0({}, {}).", x, y)); } }
+    rules.push("g0(b, b).".into());
+    for t in ["[a, 1]", "[b, 2]", "s(a)", "s(2)", "[c, c]"] { if r.below(3) > 0 { rules.push(format!("h0({}).", t)); } }
+    rules.push("h0([1, a]).".into());
+    let vars = ["$X", "$Y", "$Z", "$W"];
+    for level in 1..=3 {
+        let na = 1 + r.below(3);
+        for _ in 0..na {
+            if r.below(6) == 0 { rules.push(format!("r{}a({}).", level, CONSTS[r.below(CONSTS.len())])); }
+            else { rules.push(format!("r{}a($X) :- {}.", level, rand_conj(r, level, &vars, cuts, 0, 4))); }
+        }
+        let nb = 1 + r.below(2);
+        for _ in 0..nb { rules.push(format!("r{}b($X, $Y) :- {}.", level, rand_conj(r, level, &vars, cuts, 0, 4))); }
+    }
+    let q = match r.below(4) { 0 => "r3a($Q)".to_string(), 1 => "r3b($Q, $R)".to_string(), 2 => format!("r3b({}, $R)", CONSTS[r.below(CONSTS.len())]), _ => "r2a($Q)".to_string() };
+    (rules, q)
+}
+
+fn prog_cases(seed: u64, mode: &str, cuts: bool, n: usize, need: &str) -> Vec<String> {
+    let mut r = Rng(seed.wrapping_mul(0x9E3779B97F4A7C15) ^ 0x5DEECE66D | 1);
+    let mut out = vec![];
+    let mut tries = 0;
+    while out.len() < n && tries < n * 20 {
+        tries += 1;
+        let (rules, q) = rand_program(&mut r, cuts);
+        if !need.is_empty() && !rules.iter().any(|x| x.contains(need)) { continue; }
+        out.push(format!("mode={}\u{1}{}\u{1}{}", mode, rules.join("\u{2}"), q));
+    }
+    out
+}
+pub fn enum_prog_reask(seed: u64) -> Vec<String> { prog_cases(seed, "reask", true, 3000, "") }
+pub fn enum_prog_cut(seed: u64) -> Vec<String> { prog_cases(seed + 1000, "answers", true, 2000, "!") }
+pub fn enum_prog_not(seed: u64) -> Vec<String> { prog_cases(seed + 2000, "answers", false, 2000, "not(") }
+
+/// runs the query on the engine: (answers, exhausted?, output, what requests after exhaustion gave, what they wrote)
+fn engine_run(kb: &KnowledgeBase, q: &str, max: usize, again: usize) -> Result<(Vec<String>, bool, String, Vec<String>, String), String> {
+    let query = parse_query(q).map_err(|e| format!("setup: {}", e))?;
+    let sn = make_base_node(Rc::new(query), kb);
+    let cap = Capture::start("eng");
+    let mut out = vec![];
+    let mut exhausted = false;
+    for _ in 0..max {
+        match next_solution(Rc::clone(&sn)) {
+            Some(ss) => { let g = sn.borrow().goal.clone(); out.push(format!("{}", g.replace_variables(&ss))); },
+            None => { exhausted = true; break; },
+        }
+    }
+    let written = cap.end();
+    let mut late = vec![];
+    let mut late_out = String::new();
+    if exhausted {
+        let cap = Capture::start("eng2");
+        for _ in 0..again { if let Some(ss) = next_solution(Rc::clone(&sn)) { let g = sn.borrow().goal.clone(); late.push(format!("{}", g.replace_variables(&ss))); } }
+        late_out = cap.end();
+    }
+    Ok((out, exhausted, written, late, late_out))
+}
+
+pub fn check_program(case: &str) -> Result<(), String> {
+    let parts: Vec<&str> = case.split('\u{1}').collect();
+    if parts.len() != 3 { return Err("bad case".into()); }
+    let mode = parts[0].trim_start_matches("mode=");
+    let mut kb = KnowledgeBase::new();
+    for r in parts[1].split('\u{2}') { let rule = parse_rule(r).map_err(|e| format!("setup: {}: {}", r, e))?; add_rules(&mut kb, vec![rule]); }
+    let q = parts[2];
+    // the reference interpreter first: it also tells whether the program terminates within the step limit and stays
+    // free of cyclic bindings (programs that need the occurs check are outside every claim and make printing recurse forever)
+    let query = parse_query(q).map_err(|e| format!("setup: {}", e))?;
+    let cap = Capture::start("ref");
+    let expected = crate::o_ref::reference_answers(&kb, &query, 61);
+    let ref_out = cap.end();
+    let expected = match expected { Some(a) => a, None => { crate::skip(); return Ok(()); } };
+    if expected.len() > 60 { crate::skip(); return Ok(()); }
+    let (got, exhausted, written, late, late_out) = engine_run(&kb, q, 70, 3)?;
+    let show = || parts[1].replace('\u{2}', " ");
+    if mode == "reask" {
+        if !exhausted { crate::skip(); return Ok(()); }
+        if !late.is_empty() { return Err(format!("`{}` reported no more answers after {} answer(s), then answered {:?}; program: {}", q, got.len(), late, show())); }
+        if !late_out.is_empty() { return Err(format!("`{}` reported no more answers after {} answer(s); the requests after that wrote {:?}; program: {}", q, got.len(), late_out, show())); }
+        return Ok(());
+    }
+    // mode answers: against the reference interpreter (answers and output)
+    let e: Vec<String> = expected.iter().map(|s| crate::o_ref::normalise(s)).collect();
+    let g: Vec<String> = got.iter().map(|s| crate::o_ref::normalise(s)).collect();
+    if e != g { return Err(format!("`{}`: the engine answers {:?}, depth-first resolution answers {:?}; program: {}", q, got, expected, show())); }
+    if mode == "output" && crate::o_ref::normalise(&written) != crate::o_ref::normalise(&ref_out) {
+        return Err(format!("`{}`: the engine wrote {:?}, depth-first resolution writes {:?}; program: {}", q, written, ref_out, show()));
+    }
+    Ok(())
 }
